@@ -124,7 +124,7 @@ func (w *World) refFunds(s *Snap, storedOf *Snap, v *accountant.Vertex) (ok bool
 // nodeState is what the oracles remember per node between snapshots.
 type nodeState struct {
 	prev          *Snap
-	parkedKnown   map[Hash]int // parked vertices all of whose parents were in the ledger at the previous snapshot -> retry count
+	parkedKnown   map[Hash][2]int // parked vertices all of whose parents were in the ledger at the previous snapshot -> retry count
 	confirmedSeen map[Hash]bool
 	baseline      map[Hash]bool // vertices obtained by sync (taken as given)
 	everLive      map[Hash]bool
@@ -170,13 +170,22 @@ func (w *World) checkSnap(cur *Snap) {
 	// a parked vertex all of whose declared parents are in the ledger, one of them only in storage: the retry
 	// has to admit it (or refuse it for a reason of its own). Judged by behaviour: the vertex was seen parked
 	// with all its parents known, and is seen parked again with a higher retry count - it was offered again and
-	// sent back to wait for parents the ledger holds
-	parkedKnown := map[Hash]int{}
+	// sent back to wait for parents the ledger holds. Only parents that cannot leave the ledger in between count:
+	// checkpointed ones and live ones that have a child (a tip can be dropped as invalid and be delivered again)
+	// the buffer may hold several copies of one vertex (it arrived more than once), each with its own count:
+	// per vertex the number of copies and the sum of their counts are compared. A fresh arrival adds a copy, a
+	// copy that is admitted or given up leaves; only a retry that parks the vertex again raises the sum without
+	// adding a copy
+	parkedKnown := map[Hash][2]int{}
+	parkedVrx := map[Hash]accountant.Vertex{}
 	for _, pk := range cur.Parked {
 		v := pk.Vertex
 		all, stored := true, false
 		for _, ph := range declParents(&v) {
-			if _, ok := cur.Live[ph]; ok {
+			if lv, ok := cur.Live[ph]; ok {
+				if len(lv.GChild) == 0 {
+					all = false // a live tip may be dropped as invalid and come back: not continuously there
+				}
 				continue
 			}
 			if _, ok := cur.Stored[ph]; ok {
@@ -186,10 +195,21 @@ func (w *World) checkSnap(cur *Snap) {
 			all = false
 		}
 		if all && stored {
-			parkedKnown[Hash(v.Hash)] = pk.Repeated
-			if was, ok := st.parkedKnown[Hash(v.Hash)]; ok && pk.Repeated > was {
-				w.violate("C07", "transparent", "vertex-parked-for-ever-behind-checkpointed-parent", cur.Node, "vertex %s weight %d: retried (count %d -> %d) and parked again although every declared parent is in the ledger", hx(v.Hash), v.Weight, was, pk.Repeated)
-			}
+			e := parkedKnown[Hash(v.Hash)]
+			parkedKnown[Hash(v.Hash)] = [2]int{e[0] + 1, e[1] + pk.Repeated}
+			parkedVrx[Hash(v.Hash)] = v
+		}
+	}
+	var pks []Hash
+	for h := range parkedKnown {
+		pks = append(pks, h)
+	}
+	sort.Slice(pks, func(i, j int) bool { return bytes.Compare(pks[i][:], pks[j][:]) < 0 })
+	for _, h := range pks {
+		e := parkedKnown[h]
+		if was, ok := st.parkedKnown[h]; ok && e[0] <= was[0] && e[1] > was[1] {
+			v := parkedVrx[h]
+			w.violate("C07", "transparent", "vertex-parked-for-ever-behind-checkpointed-parent", cur.Node, "vertex %s weight %d: retried and parked again (%d copies, retry counts %d -> %d) although every declared parent is in the ledger", hx(v.Hash), v.Weight, e[0], was[1], e[1])
 		}
 	}
 	st.parkedKnown = parkedKnown
